@@ -48,7 +48,13 @@ impl Check for MerkleIndexed {
     type Cfg = Cfg;
     type Step = Step;
     fn id(&self) -> &'static str { "merkle_indexed" }
-    fn runs(&self, tier: Tier) -> u64 { if tier == Tier::Quick { 400 } else { 30_000 } }
+    fn runs(&self, tier: Tier) -> u64 {
+        if tier == Tier::Quick {
+            4000
+        } else {
+            100000
+        }
+    }
     fn components(&self) -> serde_json::Value { serde_json::json!({"real": ["MerkleDistributor<Keccak256>::verify_with_index_and_set_claimed", "Verifier::verify_with_index", "crypto::keccak"], "stub": ["reference positional tree in the harness"]}) }
     fn clock_step(&self, n: u32) -> Option<Step> {
         Some(Step::Advance { n })
